@@ -203,14 +203,18 @@ def mm_preseal():
                          C("inv", "state_inv(res)", "C20"),
                          C("builtins", "spec_builtin_pools(res) && builtins_live(res) && pools_ok(res.pools@)", "C16")])
 def st_tip909():
-    return dict(requires=[C("pools", "old(self).pools@.contains_key(pk_mel_sym()) && old(self).pools@.contains_key(pk_erg_sym())")],
+    return dict(requires=[C("pools", "old(self).pools@.contains_key(pk_mel_sym()) && old(self).pools@.contains_key(pk_erg_sym()) && pool_live(old(self).pools@[pk_mel_sym()]) && pool_live(old(self).pools@[pk_erg_sym()])"),
+                          C("height", "old(self).height.0 < 950000 + 128 * 1_000_000", note="C09 envelope: `(1 << 20) >> divider` overflows the shift once divider reaches 128, i.e. from height 128 950 000 on (about 120 years of 30-second blocks); not reproduced on the real code (sealing at such a height is impractical to run)"),
+                          C("fits", "old(self).fee_pool.0 + old(self).pools@[pk_mel_sym()].lefts <= u128::MAX", note="C09 envelope: fee pool plus the MEL reserve fit in u128 (MEL supply < 2^127)")],
                 ensures=[C("det", "*final(self) == spec_tip909(*old(self))", det=True),
+                         C("subsidy", "tip909_applied(*old(self), *final(self))", "C01", "C05", "C16",
+                           note="TIP-909: SYM is issued into the MEL/SYM and ERG/SYM pools (listed issuance); the MEL it buys moves from the MEL/SYM reserve to the fee pool; the ERG it buys is discarded"),
                          C("frame", "pool_phase_frame(*old(self), *final(self)) && final(self).coins == old(self).coins", "C01", "C17"),
                          C("builtins", "forall|k: PoolKey| old(self).pools@.contains_key(k) ==> #[trigger] final(self).pools@.contains_key(k)", "C16")])
 def smt_val_iter():
     return dict(ensures=[C("all", "res@.len() == self@.dom().len()", "C16")])
 def st_seal_full():
-    return dict(requires=[C("inv", "state_inv(self) && pools_ok(self.pools@) && builtins_if_present(self)"), C("env", "seal_env(self)"),
+    return dict(requires=[C("inv", "state_inv(self) && pools_ok(self.pools@) && builtins_if_present(self)"), C("env", "seal_env(self)"), C("env909", "spec_tip(self.network, self.height, 950000) ==> tip909_env(spec_preseal(self))", note="C09 envelopes of apply_tip_909 (see its contract), on the state after settlement"),
                           C("fits", "self.tips.0 <= u128::MAX - 0x1_0000_0000_0000_0000_0000_0000_0000u128", note="C09 envelope: pending tips below 2^128 - 2^112")],
                 ensures=[C("det", "res.0 == spec_seal(self, action)", det=True),
                          C("rel", "seal_rel(self, action, res.0) && res.1 == action", "C06", "C05", "C17"),
